@@ -42,6 +42,7 @@ pub fn run(ctx: &Ctx) -> bool {
             c08::run(ctx);
             c08::run_pool_variant(ctx);
             c08::run_capture_loop(ctx);
+            c08::run_tuple_reuse(ctx);
             c08::fuzz(ctx)
         }
         "C09" => c09::run(ctx),
